@@ -17,6 +17,10 @@ LEAN = os.path.join(ROOT, "lean")
 HARN = os.path.join(ROOT, "harness")
 DRIVER = os.path.join(LEAN, ".lake", "build", "bin", "driver")
 HBIN = os.path.join(HARN, "target", "debug", "harness")
+if os.environ.get("VERIF_COVERAGE_HBIN"):
+    # self-audit only (tools/coverage.sh): an instrumented build of the same harness, to measure which lines of
+    # /repo the correspondence streams execute; never set by a registered command
+    HBIN = os.environ["VERIF_COVERAGE_HBIN"]
 WORK = os.path.join(ROOT, ".work")
 REPLAYS = os.path.join(ROOT, "replays")
 EVID = os.path.join(ROOT, "evidence")
